@@ -1,21 +1,42 @@
 """C02 -- the AMG cycle is a fixed linear, symmetric positive, contracting operator."""
-import random
+import random, zlib
 from fractions import Fraction as F
 from vcheck import fmt_q, parse_out_vec
 import gen
 from props import amg_common as ac
+from props.common import account
 
-DRIVERS = ac.DRIVERS
+# exact builds (tie against the model + oracles) and double builds (power-of-two scaling, bitwise).
+# The double builds are the poisoned-heap binaries of C10 (same source, same flags => same cache entry).
+DDRIVERS = ["amgd_%s@poison" % c for c in ac.COARSENINGS]
+DRIVERS = ac.DRIVERS + DDRIVERS
+EXTRA_FLAGS = {"@poison": ["-DVQ_POISON"]}
 MODEL = "amg"
 ASSUMPTIONS = [
     "transfer operators are taken from the implementation's hierarchy (property C04 covers them); coarse direct solve modelled as exact solve (C16)",
-    "contraction is checked as strict energy-norm decrease on sampled error vectors (a test); the spectral-radius formulation is not formalised",
-    "ILU(0)/Chebyshev smoothers inside the cycle: oracle-only until their models are linked into the amg driver",
+    "contraction is proved as strict decrease of the energy norm of every non-zero error (and |lambda| < 1 for every eigenvalue of I - BA that lies in the field); the step from there to the spectral radius (existence of an A-orthogonal eigenbasis over the reals) is not formalised",
+    "ILU(0)/Chebyshev smoothers inside the cycle: model linked into the amg driver for the correspondence, no energy / scaling theorem (oracle-only there)",
+    "scaling clause: proved for the model over any field (c <> 0, transfer operators given); on the implementation checked in exact arithmetic for c = 2^k and a few other c > 0 (all coarsenings build the SAME transfer operators from c*A) and in the double build bitwise for c = 2^k, |k| <= 40 (no overflow / underflow in the generated range)",
 ]
-RULE = "seeded SPD M-matrices (paths, grids, random graphs) x 4 coarsenings x {damped_jacobi, spai0, gauss_seidel | ilu0, chebyshev oracle-only} x ncycle/npre/npost/pre_cycles/coarse_enough/max_levels/direct_coarse; scripts: apply f, apply g, apply a f + b g, apply f again, cycle with non-zero x, unit vectors for small n; non-trivial = non-zero output"
+RULE = "seeded SPD M-matrices (paths, grids, random graphs) x 4 coarsenings x {damped_jacobi, spai0, gauss_seidel, ilu0, chebyshev} x ncycle/npre/npost/pre_cycles/coarse_enough/max_levels/direct_coarse; scripts: apply f, apply g, apply a f + b g, apply f again, cycle with non-zero x, unit vectors for small n; every third case has a twin built from c*A (exact build) and every second case a pair A / 2^k A in the double build; non-trivial = non-zero output"
 
+def bump(st, key): st["by_op"][key] = st["by_op"].get(key, 0) + 1
 def dot(u, v): return sum(a * b for a, b in zip(u, v))
 def matvec(rows, x): return [sum(v * x[c] for c, v in rw) for rw in rows]
+
+SCALES = [F(2), F(1, 2), F(4), F(8), F(1, 16), F(1024), F(1, 4096), F(2) ** 20, F(3), F(5, 7)]
+
+def twin_of(c, s):
+    """the same case built from s*A; apply right-hand sides unchanged, cycle right-hand side scaled
+    (cycle(s*A; s*f, x) = cycle(A; f, x) for x <> 0, apply(s*A; f) = apply(A; f) / s)"""
+    rows = [[(j, v * s) for j, v in rw] for rw in c.rows]
+    script = []
+    for cmd in c.script:
+        if cmd[0] == "cycle": script.append(("cycle", [s * u for u in cmd[1]], cmd[2]))
+        else: script.append(cmd)
+    t = ac.Case(c.cid + "s", c.coarsening, c.relax, c.cfg, c.cprm, c.damping, c.n, rows, script)
+    t.meta = dict(c.meta); t.meta["twin_of"] = c.cid; t.meta["scale"] = s
+    return t
 
 def make_cases(tier, seed):
     r = random.Random(seed * 1000 + 2)
@@ -37,28 +58,109 @@ def make_cases(tier, seed):
         if units:
             for i in range(n):
                 e = [F(0)] * n; e[i] = F(1); script.append(("apply", e, x0))
-        damping = r.choice(["1/2", "3/4", "5/8", "-", "1"]) 
+        damping = r.choice(["1/2", "3/4", "5/8", "-", "1"])
         c = ac.Case("c%d" % k, co, rx, cfg, ac.rand_cprm(r, co), damping, n, rows, script)
         c.meta = dict(a=a, b=b, units=units, sym=sym)
         cases.append(c)
-    return cases
+    # scaling twins (their own random stream so that the base cases stay what they were)
+    rs = random.Random(seed * 1000 + 202)
+    twins = []
+    for k, c in enumerate(cases):
+        s = rs.choice(SCALES)
+        if k % 3 == 0: twins.append(twin_of(c, s))
+    return cases + twins
+
+def double_pairs(tier, seed):
+    """(base line, scaled line, exponent, case) for the double build: dyadic data, 2^e * A"""
+    r = random.Random(seed * 1000 + 302)
+    N = 120 if tier == "quick" else 600
+    relaxes = ["damped_jacobi", "spai0", "gauss_seidel", "ilu0", "chebyshev"]
+    out = []
+    for k in range(N):
+        n = r.choice([1, 2, 3, 4, 6, 8, 12, 16, 25, 40])
+        rows = gen.spd_mmatrix(r, n, extra_diag=(F(r.choice([1, 2]), r.choice([1, 2, 4])) if r.random() < 0.7 else None))
+        co = ac.COARSENINGS[k % 4]; rx = relaxes[(k // 4) % len(relaxes)]
+        cfg = ac.rand_cfg(r, n)
+        if cfg["pre_cycles"] == 0: cfg["pre_cycles"] = 1
+        e = r.choice([1, -1, 2, 3, -4, 7, 10, -13, 20, -27, 40, -40])
+        s = F(2) ** e
+        f = gen.dyvec(r, n); g = gen.dyvec(r, n); x0 = gen.dyvec(r, n); z = [F(0)] * n
+        damping = r.choice(["1/2", "3/4", "5/8", "-", "1"])
+        cprm = ac.rand_cprm(r, co)
+        base = ac.Case("d%d" % k, co, rx, cfg, cprm, damping, n, rows,
+                       [("dump",), ("apply", f, z), ("apply", g, x0), ("cycle", f, x0)])
+        scaled = ac.Case("d%ds" % k, co, rx, cfg, cprm, damping, n, [[(j, v * s) for j, v in rw] for rw in rows],
+                         [("dump",), ("apply", f, z), ("apply", g, x0), ("cycle", [s * u for u in f], x0)])
+        out.append((base, scaled, s))
+    return out
+
+def compare_scaled(o, o2, s, kinds, pre_cycles):
+    """o, o2: payloads of the base case and of the case built from s*A (cycle right-hand sides
+    scaled by s); kinds: the script commands.  Returns None or a message."""
+    if o is None or o2 is None: return "no answer"
+    bad = ("EXC", "CRASH", "UNSUPPORTED")
+    if o.startswith(bad) or o2.startswith(bad):
+        # construction must fail for both (same exception) or for none
+        return None if (o.startswith("EXC") and o.split(" ")[:2] == o2.split(" ")[:2]) else \
+            "construction outcome differs: %s vs %s" % (o[:40], o2[:40])
+    sa, sb = o.split(" ; "), o2.split(" ; ")
+    if len(sa) != len(sb) or len(sa) != len(kinds): return "different number of script results"
+    for i, (u, v) in enumerate(zip(sa, sb)):
+        if kinds[i] == "dump":
+            la, lb = ac.parse_dump(u), ac.parse_dump(v)
+            if [x[0] for x in la] != [x[0] for x in lb]:
+                return "level structure differs: %s vs %s" % ([x[0] for x in la], [x[0] for x in lb])
+            for lv, (x, y) in enumerate(zip(la, lb)):
+                if (x[1] is None) != (y[1] is None): return "level %d: matrix present / absent" % lv
+                if x[1] is not None:
+                    (n1, m1, r1), (n2, m2, r2) = x[1], y[1]
+                    if (n1, m1) != (n2, m2) or [[c for c, _ in rw] for rw in r1] != [[c for c, _ in rw] for rw in r2]:
+                        return "level %d: pattern of A differs" % lv
+                    if any(v2 != s * v1 for rw1, rw2 in zip(r1, r2) for (_, v1), (_, v2) in zip(rw1, rw2)):
+                        return "level %d: A(c*M) != c * A(M)" % lv
+                if x[2] != y[2]: return "level %d: P differs" % lv
+                if x[3] != y[3]: return "level %d: R differs" % lv
+        else:
+            if any(w in u or w in v for w in ("nan", "inf")):
+                if u != v: return "script step %d: non-finite results differ" % i
+                continue
+            a, b = parse_out_vec(u), parse_out_vec(v)
+            if kinds[i] == "cycle" or pre_cycles == 0:
+                if a != b: return "script step %d (%s): results differ" % (i, kinds[i])
+            elif [s * y for y in b] != a:
+                return "script step %d (apply): B(c*A) f != B(A) f / c" % i
+    return None
 
 def run(ctx, cases_override=None):
     cases = make_cases(ctx["tier"], ctx["seed"])
+    dpairs = double_pairs(ctx["tier"], ctx["seed"])
     if cases_override:
         ids = set(l.split(" ", 1)[0] for l in cases_override)
-        cases = [c for c in cases if c.cid in ids] or cases
-    fails, impl, model, levels = ac.run_cases(ctx, cases)
+        # a twin needs its base case and vice versa
+        ids |= set(i[:-1] for i in ids if i.endswith("s")) | set(i + "s" for i in ids)
+        sel = [c for c in cases if c.cid in ids]
+        seld = [p for p in dpairs if p[0].cid in ids or p[1].cid in ids]
+        if sel or seld: cases, dpairs = sel, seld
+    fails, impl, model, levels = ac.run_cases(ctx, cases) if cases else ([], {}, {}, {})
+    st = ctx["stats"]
     def fail(c, msg, got=None, exp=None):
         fails.append(dict(kind="counterexample", case=c.impl_line(), impl=got, model=exp, op="amg." + c.coarsening,
                           size=len(c.impl_line()), oracle=dict(statement=msg), theorem="C02 oracle on the implementation: " + msg))
+    byid = dict((c.cid, c) for c in cases)
     for c in cases:
         o = impl.get(c.cid)
+        # ---- scaling clause, exact arithmetic: twin built from s*A
+        if "twin_of" in c.meta and c.meta["twin_of"] in byid:
+            st["oracle_checks"] += 1
+            msg = compare_scaled(impl.get(c.meta["twin_of"]), o, c.meta["scale"], [cmd[0] for cmd in c.script], c.cfg["pre_cycles"])
+            b0 = impl.get(c.meta["twin_of"]) or ""
+            bump(st, "oracle:scaling-exact")
+            if b0.startswith("D ") and not b0.startswith("D 1 "): bump(st, "oracle:scaling-exact-multilevel")
+            if msg: fail(c, "scaling by c = %s (exact arithmetic): %s" % (c.meta["scale"], msg), (o or "")[:300], (impl.get(c.meta["twin_of"]) or "")[:300])
         if not o or o.startswith(("EXC", "CRASH", "UNSUPPORTED")): continue
         segs = [parse_out_vec(s) for s in o.split(" ; ")[1:]]
         n = c.n; m = c.meta
         Bf, Bg, Bfg, Bf2 = segs[0], segs[1], segs[2], segs[3]
-        st = ctx["stats"]
         # one fixed operator: independent of earlier applications and of the initial content of x
         st["oracle_checks"] += 1
         if Bf != Bf2: fail(c, "apply(f) differs between the 1st and the 4th application (history / initial x dependence)", str(Bf2), str(Bf))
@@ -74,19 +176,41 @@ def run(ctx, cases_override=None):
                 st["oracle_checks"] += 1
                 if any(B[j][i] != B[i][j] for i in range(n) for j in range(i)):
                     fail(c, "B is not symmetric although A is SPD, R = P^T, npre = npost and the smoother is symmetric")
-                # positive definite on the unit basis and on sample vectors; strict energy decrease
+                # positive definite on sample vectors; strict energy decrease.  Only with smoothing
+                # steps >= 1 (the property's quantifier): with npre = npost = 0 the operator is the bare
+                # coarse-grid correction P B_c R, positive SEMI-definite only.
                 damp_ok = (c.relax != "damped_jacobi") or (c.damping in ("1/2", "5/8", "3/4", "-"))
-                for t in range(3):
-                    rr = random.Random(hash((c.cid, t)) & 0xffffff)
+                rows = c.rows
+                for t in range(3 if c.cfg["npre"] >= 1 else 0):
+                    rr = random.Random(zlib.crc32(("%s:%d" % (c.cid.rstrip("s"), t)).encode()))
                     gvec = [F(rr.randint(-3, 3)) for _ in range(n)]
                     if all(v == 0 for v in gvec): continue
                     Bg_ = [sum(B[j][i] * gvec[j] for j in range(n)) for i in range(n)]
                     st["oracle_checks"] += 1
                     if c.relax != "chebyshev" and damp_ok and not dot(Bg_, gvec) > 0: fail(c, "<B g, g> <= 0 for g = %s" % gvec)
                     # error propagation e' = e - B A e ; energy strictly decreases
-                    Ae = matvec(c.rows, gvec); BAe = [sum(B[j][i] * Ae[j] for j in range(n)) for i in range(n)]
+                    Ae = matvec(rows, gvec); BAe = [sum(B[j][i] * Ae[j] for j in range(n)) for i in range(n)]
                     e2 = [u - v for u, v in zip(gvec, BAe)]
-                    en0 = dot(Ae, gvec); en1 = dot(matvec(c.rows, e2), e2)
+                    en0 = dot(Ae, gvec); en1 = dot(matvec(rows, e2), e2)
                     if c.relax in ("damped_jacobi", "spai0", "gauss_seidel") and damp_ok and c.cfg["npre"] >= 1 and not en1 < en0:
                         fail(c, "energy norm does not decrease: <A Ee, Ee> = %s >= <A e, e> = %s" % (en1, en0))
+    # ---- scaling clause, double build: A vs 2^e A, bitwise (results printed as exact rationals)
+    by_drv = {}
+    for b, s2, s in dpairs: by_drv.setdefault("amgd_%s@poison" % b.coarsening, []).append((b, s2, s))
+    for d, ps in by_drv.items():
+        if d not in ctx["cpp"]: continue
+        lines = [x.impl_line() for p in ps for x in p[:2]]
+        out = ctx["run_driver"](ctx["cpp"][d], lines, timeout=1500)
+        account(ctx, lines, out)
+        for b, s2, s in ps:
+            st["oracle_checks"] += 1
+            msg = compare_scaled(out.get(b.cid), out.get(s2.cid), s, [cmd[0] for cmd in b.script], b.cfg["pre_cycles"])
+            b0 = out.get(b.cid) or ""
+            bump(st, "oracle:scaling-double")
+            if b0.startswith("D ") and not b0.startswith("D 1 "): bump(st, "oracle:scaling-double-multilevel")
+            if msg:
+                fails.append(dict(kind="counterexample", case=s2.impl_line(), impl=(out.get(s2.cid) or "")[:300], model=(out.get(b.cid) or "")[:300],
+                                  op="amgd." + b.coarsening, size=len(s2.impl_line()), build="double",
+                                  oracle=dict(statement="scaling by 2^k in binary64, bitwise: " + msg, scale=str(s)),
+                                  theorem="C02 oracle on the implementation (double build): B(2^k A) = 2^-k B(A) bitwise: " + msg))
     return fails
